@@ -1,7 +1,7 @@
 \* C04 thorough: 3 blocks x <= 2 writes
 CONSTANTS
   Stores = {"s1", "s2"}
-  NK = 2  NV = 2  NTK = 1  MaxVer = 3  MaxWrites = 2  MaxViews = 1
+  NK = 2  NV = 1  NTK = 1  MaxVer = 3  MaxWrites = 2  MaxViews = 1
   IterBounds <- FullOnly
   Features = {"close"}
   FirstBlockFixed = FALSE
